@@ -268,6 +268,8 @@ Lemma function_family_ok : family_ok = true.
 Proof. vm_compute. reflexivity. Qed.
 Lemma fmt_alias_table_ok : forallb fmt_row_ok x_fmt_rows = true.
 Proof. vm_compute. reflexivity. Qed.
+Lemma star_rows_agree : forallb star_row_ok x_star_rows = true.
+Proof. vm_compute. reflexivity. Qed.
 Lemma class_contexts_ok : forall c, class_ctx_ok c = true.
 Proof. destruct c; vm_compute; reflexivity. Qed.
 
@@ -279,3 +281,30 @@ Lemma ctx_facts c j :
   /\ conv_quote (x_ctx_at c PGroup j) = spec_alias_quote c /\ conv_quote (x_ctx_at c POrder j) = spec_alias_quote c
   /\ x_group_ref c = spec_group_alias_allowed c /\ x_order_ref c = spec_order_alias_allowed c.
 Proof. destruct c, j; vm_compute; repeat split. Qed.
+
+(* ------------------------------------------------------------------------------------------------ *)
+(* 5. select('*', ...) keeps every non-field term, with its alias                                      *)
+(* ------------------------------------------------------------------------------------------------ *)
+Lemma fold_after_star ts : forall sels tabs,
+  fold_left sel_step (map ST ts) {| st_star := true; st_tabs := tabs; st_sels := sels |}
+  = {| st_star := true; st_tabs := tabs; st_sels := sels ++ filter (fun t => negb (is_fieldlike t)) ts |}.
+Proof.
+  induction ts as [|t r IH]; intros sels tabs; cbn [map fold_left filter].
+  - rewrite app_nil_r. reflexivity.
+  - unfold sel_step at 2. unfold is_fieldlike. destruct (table_of t) eqn:E; cbn [is_some negb st_star st_tabs st_sels].
+    + apply IH.
+    + rewrite IH. rewrite <- app_assoc. reflexivity.
+Qed.
+
+Theorem star_keeps_terms ts :
+  normalize_sel (SStar :: map ST ts) = TStar None :: filter (fun t => negb (is_fieldlike t)) ts.
+Proof. unfold normalize_sel. cbn [fold_left sel_step sel_state0 st_tabs]. rewrite fold_after_star. reflexivity. Qed.
+
+(* so the alias of a function / arithmetic / CASE / criterion / sub-query selected after '*' IS a selected alias *)
+Corollary star_alias_selected ts t a : In t ts -> is_fieldlike t = false -> alias_of t = Some a ->
+  existsb (option_eqb String.eqb (Some a)) (map alias_of (normalize_sel (SStar :: map ST ts))) = true.
+Proof.
+  intros Hin Hf Ha. rewrite star_keeps_terms. apply existsb_exists. exists (Some a). split.
+  - apply in_map_iff. exists t. split; [exact Ha|]. right. apply filter_In. split; [exact Hin|]. rewrite Hf. reflexivity.
+  - cbn. apply String.eqb_refl.
+Qed.
